@@ -18,7 +18,7 @@ AddColumn == /\ phase = "cols" /\ Len(cols) < MaxCols
                   cols' = Append(cols, [min |-> r[1], max |-> r[2], brk |-> b, kind |-> k])
              /\ UNCHANGED <<recs, opts, phase>>
 EndCols == phase = "cols" /\ cols # <<>> /\ phase' = "recs" /\ UNCHANGED <<cols, recs, opts>>
-CellChoices(c) == IF cols[c].brk \/ cols[c].kind # "plain" THEN 0 .. 3 ELSE LenClasses
+CellChoices(c) == IF cols[c].kind # "plain" THEN 0 .. 4 ELSE IF cols[c].brk THEN 0 .. 3 ELSE LenClasses
 AddRecord == /\ phase = "recs" /\ Len(recs) < MaxRecs
              /\ \E r \in [1 .. Len(cols) -> 0 .. 12] :
                   /\ \A c \in 1 .. Len(cols) : r[c] \in CellChoices(c)
